@@ -57,7 +57,7 @@ def Scheme.pos (s : Scheme) (mask : UInt64) (i : Nat) (h : UInt64) : Res Nat :=
     | some seed => .ok ((h ^^^ seed) &&& mask).toNat
   | .core => .ok ((h + (UInt64.ofNat i) * (h >>> 32)) &&& mask).toNat
 
-/-- `next_power_of_2` (sketch.rs): smears 32 bits only; `num ≥ 1` -/
+/-- `next_power_of_2` (sketch.rs, repaired: all 64 bits are smeared; the final `+ 1` wraps); `num ≥ 1` -/
 def nextPow2 (num : UInt64) : UInt64 :=
   let n := num - 1
   let n := n ||| (n >>> 1)
@@ -65,6 +65,7 @@ def nextPow2 (num : UInt64) : UInt64 :=
   let n := n ||| (n >>> 4)
   let n := n ||| (n >>> 8)
   let n := n ||| (n >>> 16)
+  let n := n ||| (n >>> 32)
   n + 1
 
 structure Sketch where
